@@ -18,7 +18,7 @@ from pactisim.env import HarnessError
 NC = 6  # contract slots
 NL = 4  # term-list slots
 BASE_NAMES = ["x", "y", "z", "u", "v", "w", "t1"]
-WIDE_NAMES = BASE_NAMES + ["a", "b", "c", "p", "in_1", "out_22"]
+WIDE_NAMES = BASE_NAMES + ["a", "b", "c", "p", "in_1", "out_22", "k", "m", "n0", "speed_limit_upper_bound_v2"]
 SYM_NAMES = ["E", "I", "pi", "S", "N", "lambda", "beta"]  # legal variable names that mean something to sympy
 NAMES = list(BASE_NAMES)
 EXTRA_NAMES = ["q", "r_2", "long_name"]
@@ -40,7 +40,7 @@ def draw_style(rs) -> Dict:
     if r < 0.55:
         return {"name": "symnames"}
     if r < 0.7:
-        return {"name": "wide", "max_terms": 9}
+        return {"name": "wide", "max_terms": rs.choice([9, 9, 14, 20])}
     if r < 0.8:
         return {"name": "large", "scales": [1.0, 1e3, 1e5]}
     if r < 0.88:
